@@ -292,6 +292,10 @@ pub enum CqlRequestSerializationError {
     /// Request body compression failed.
     #[error("Snap compression error: {0}")]
     SnapCompressError(Arc<dyn Error + Sync + Send>),
+
+    /// Request body is too large: its size does not fit in the 4-byte length field of a CQL frame.
+    #[error("Request body of {0} bytes is too large: its size does not fit in a 4-byte length field")]
+    BodyTooLarge(usize),
 }
 
 /// An error type returned when deserialization of CQL
